@@ -1070,7 +1070,8 @@ class Evaluator:
             return (base.args[0] / base.args[1]).subs(ANG, 1)
         if is_num(base):
             if attr == 'value':
-                return App('attr:value', (base,))
+                # the number stored in the quantity's *own* unit: depends on the unit it was given in
+                return base / sp.Symbol(f'unit[{base}]', positive=True)
             if attr in ('x', 'y') and isinstance(base, sp.Symbol):
                 return sym(f'{base.name}.{attr}')
         return App('attr:' + attr, (base,))
@@ -1269,6 +1270,10 @@ class Evaluator:
                 return a[0]
             if short == 'pi':
                 return sp.pi
+            if short in ('deg2rad', 'radians') and numeric and len(a) == 1:
+                return a[0] * sp.pi / 180
+            if short in ('rad2deg', 'degrees') and numeric and len(a) == 1:
+                return a[0] * 180 / sp.pi
             if short in ('logical_not', 'invert') and len(a) == 1:
                 return mk_not(a[0]) if isinstance(a[0], (Cmp, BoolT, Const)) else BoolT('not', (a[0],))
             if short in ('logical_xor', 'logical_and', 'logical_or') and len(a) == 2:
